@@ -34,8 +34,13 @@ pub fn build(c: &Case) -> Built {
     let mut names: Vec<String> = (0..nlib).map(|i| format!("lib{}.asm", i)).collect();
     let mut same_stem = false;
     if c.same_stem && nlib >= 2 {
-        names[0] = "a/x.asm".into();
-        names[1] = "b/x.asm".into();
+        // sources whose listings would get the same name unless the naming really tells them apart
+        let (a, b) = *e.pick(&[("a/x.asm", "b/x.asm"), ("main.inc", "lib1.asm"), ("lib/util.asm", "lib_util.asm"), ("gfx/c64/spr.asm", "gfx_c64/spr.asm"), ("a/x.asm", "a/x.inc")]);
+        names[0] = a.into();
+        names[1] = b.into();
+        if nlib >= 3 && (a, b) == ("lib/util.asm", "lib_util.asm") {
+            names[2] = "app/util.asm".into();
+        }
         same_stem = true;
     }
     let mut files = BTreeMap::new();
@@ -198,6 +203,15 @@ pub fn prop(c: &Case, log: &mut CaseLog) -> Verdict {
         }
     }
     log.label("cli");
+    // one listing per source file: a listing that is overwritten by another one is lost whatever the order
+    if let Some(f) = &first {
+        if f.1 == Some(0) {
+            let listings = f.2.keys().filter(|k| k.ends_with(".lst")).count();
+            if listings != b.project.files.len() {
+                return Verdict::fail(format!("cli-listing-missing-for-a-source{}", feat), format!("{}\n{} sources, listing files: {:?}", text(), b.project.files.len(), f.2.keys().filter(|k| k.ends_with(".lst")).collect::<Vec<_>>()));
+            }
+        }
+    }
     Verdict::Pass
 }
 
